@@ -96,7 +96,12 @@ def loop_element(v):
         proj.append(v[2])
         v = strip(v[1])
     if v[0] == 'call' and v[1] == 'std::iter::Iterator::next' and v[2]:
-        return strip(v[2][0]), tuple(reversed(proj))
+        coll = strip(v[2][0])
+        # `for x in &xs` and `for x in xs.iter()` visit the same elements
+        from .lib import iters
+        while coll[0] == 'call' and len(coll[2]) == 1 and iters._is_source(coll[1]) and coll[1].endswith(iters.SAME_ELEMS):
+            coll = strip(coll[2][0])
+        return coll, tuple(reversed(proj))
     return None, None
 
 
